@@ -270,6 +270,12 @@ def oracle(c):
             continue
         o = op["obs"]
         cl_ = o.get("clean")
+        # (0) arguments passed by reference are the caller's
+        for m in o.get("arg_mods") or []:
+            yield ("impl:arguments-modified",
+                   "the build changed its argument %s: %r before the call, %r after (the harness hands the same "
+                   "slice to every build of the same target list, as a caller keeping its list does)"
+                   % (m["what"], m["before"], m["after"]), i)
         # (1) incremental == clean
         if cl_ is not None:
             if o["ok"] and not cl_["ok"]:
@@ -404,6 +410,8 @@ def brief(c, upto=None):
         d = {k: v for k, v in op.items() if k not in ("obs", "content")}
         if op.get("obs"):
             o = op["obs"]
+            if o.get("arg_mods"):
+                d["arguments_changed_by_the_call"] = o["arg_mods"]
             d["observed"] = {"ok": o["ok"], "err": o.get("err"), "exec": o["exec"],
                              "outs": {f["name"]: norm_entries(f) for f in o["outs"]}}
             if o.get("clean"):
